@@ -1254,6 +1254,44 @@ fn parse_cfg(words: &[&str]) -> SrvCfg {
     SrvCfg { tokens, versions, server, port }
 }
 
+/// the server's cookie key set: `test` = `KeySet::new()`, otherwise `<id_offset>:<primary>:<len>:<rotations>` =
+/// a key file with that header (deterministic key bytes) restored through the real load path
+/// `KeySetProvider::load` (history 2) and then rotated `rotations` times — so key ids that wrap around u32
+/// (id_offset near u32::MAX) reach `encode_cookie` / `decode_cookie` exactly as after a daemon restart
+fn build_keyset(spec: &str) -> Arc<KeySet> {
+    if spec == "test" {
+        return Arc::new(KeySet::new());
+    }
+    let f: Vec<u64> = spec.split(':').map(|x| x.parse().expect("ks field")).collect();
+    let (id_offset, primary, len, rotations) = (f[0] as u32, f[1] as u32, f[2] as u32, f[3]);
+    let mut file = vec![];
+    file.extend_from_slice(&1_700_000_000u64.to_be_bytes());
+    file.extend_from_slice(&id_offset.to_be_bytes());
+    file.extend_from_slice(&primary.to_be_bytes());
+    file.extend_from_slice(&len.to_be_bytes());
+    for k in 0..len {
+        file.extend((0..64u32).map(|i| (k * 67 + i * 3 + 1) as u8));
+    }
+    let (mut provider, _time) =
+        crate::keyset::KeySetProvider::load(&mut &file[..], 2).expect("key file loads");
+    for _ in 0..rotations {
+        provider.rotate();
+    }
+    provider.get()
+}
+
+/// key-set specs: id offsets at the boundaries of u32 (0, 1, 2^31, u32::MAX-2 .. u32::MAX) x primary x length
+fn gen_keyset_spec(rng: &mut Rng) -> String {
+    let off = *rng.pick(&[0u32, 1, 0x7fff_ffff, 0x8000_0000, u32::MAX - 2, u32::MAX - 1, u32::MAX, u32::MAX, u32::MAX - 1]);
+    let len = rng.usize(1, 4) as u32;
+    let primary = if rng.chance(2, 3) { len - 1 } else { rng.below(len as u64) as u32 };
+    let rotations = match rng.below(4) {
+        0 => rng.usize(1, 4),
+        _ => 0,
+    };
+    format!("{}:{}:{}:{}", off, primary, len, rotations)
+}
+
 fn build_server(cfg: &SrvCfg) -> KeyExchangeServer {
     let (certificate_chain, private_key) = chain_and_key();
     KeyExchangeServer::new(NtsServerConfig {
@@ -1383,7 +1421,8 @@ async fn exec_conn_ops(ops: &[String], run: &mut Run) {
                 let cfg = parse_cfg(rest);
                 let kex = Arc::new(build_server(&cfg));
                 key.push_str(&format!("t{}v{}", cfg.tokens.len(), cfg.versions.len()));
-                st = Some(ConnState { cfg, kex, keyset: Arc::new(KeySet::new()), client: None, longterm: None, open: false });
+                let keyset = build_keyset(common::kv(rest, "ks").unwrap_or("test"));
+                st = Some(ConnState { cfg, kex, keyset, client: None, longterm: None, open: false });
                 run.end_op("ok");
             }
             ["conn", rest @ ..] => {
@@ -1515,6 +1554,9 @@ async fn exec_conn_ops(ops: &[String], run: &mut Run) {
                             }
                             (Some(p), Some(a)) => {
                                 run.hit("conn-ke-served");
+                                if seen.cookies.len() == 8 {
+                                    run.hit("conn-ke-8-cookies-decoded");
+                                }
                                 // coverage of the preference-order cases the property is about
                                 let first_a = algorithms.first().map(|x| u16::from(*x));
                                 let known_after: Vec<u16> = algorithms.iter().map(|x| u16::from(*x)).filter(|x| *x == 15 || *x == 17).collect();
@@ -1651,12 +1693,41 @@ fn exec_conn_case(ops: &[String], run: &mut Run) {
 
 const TOKEN_POOL: [&str; 5] = ["hi", "tok", "pool-secret", "é", "x"];
 const AUTH_POOL: [&str; 8] = ["hi", "tok", "pool-secret", "é", "x", "", "nope", "hi "];
+/// configured tokens that differ from each other (and from what clients may send) only by white space around
+/// them, by case, or by being a prefix / suffix of another: the comparison has to be byte equality
+const TRICKY_TOKENS: [&str; 16] = [
+    "hi ", " hi", "hi\t", "hi\n", "\thi\n", " hi ", "", " ", "Hi", "HI", "h", "hi2", "hihi", "pool-secret ", "Pool-Secret", "é ",
+];
+
+/// a token that is NOT byte-equal to `t` but close to it: trimmed, padded, prefix, extended, case-changed
+fn near_miss(rng: &mut Rng, t: &[u8]) -> Vec<u8> {
+    let st = String::from_utf8(t.to_vec()).expect("utf8 token");
+    let cand = match rng.below(10) {
+        0 => st.trim().to_string(),
+        1 => st.trim_start().to_string(),
+        2 => st.trim_end().to_string(),
+        3 => format!("{} ", st),
+        4 => format!(" {}", st),
+        5 => format!("{}\n", st),
+        6 => format!("\t{}", st),
+        7 => {
+            let mut c: Vec<char> = st.chars().collect();
+            c.pop();
+            c.into_iter().collect()
+        }
+        8 => st.to_uppercase(),
+        _ => format!("{}{}", st, st),
+    };
+    cand.into_bytes()
+}
 
 fn gen_cfg_line(rng: &mut Rng, want_tokens: bool) -> (String, Vec<Vec<u8>>) {
     let nt = if want_tokens { rng.usize(1, 3) } else { rng.usize(0, 3) };
     let mut tokens: Vec<Vec<u8>> = vec![];
+    let tricky = rng.chance(1, 2);
     for _ in 0..nt {
-        tokens.push(rng.pick(&TOKEN_POOL[..]).as_bytes().to_vec());
+        let t = if tricky && rng.chance(2, 3) { *rng.pick(&TRICKY_TOKENS[..]) } else { *rng.pick(&TOKEN_POOL[..]) };
+        tokens.push(t.as_bytes().to_vec());
     }
     let versions = match rng.below(8) {
         0 => "v4",
@@ -1670,8 +1741,9 @@ fn gen_cfg_line(rng: &mut Rng, want_tokens: bool) -> (String, Vec<Vec<u8>>) {
     };
     let server = if rng.chance(1, 4) { hex(b"ntp.example.com") } else { "none".to_string() };
     let port = if rng.chance(1, 4) { format!("{}", *rng.pick(&[123u16, 4460, 1, 65535])) } else { "none".to_string() };
+    let ks = if rng.chance(1, 2) { gen_keyset_spec(rng) } else { "test".to_string() };
     (
-        format!("cfg tokens={} versions={} server={} port={}", bytes_list(tokens.iter().map(|t| t.as_slice())), versions, server, port),
+        format!("cfg tokens={} versions={} server={} port={} ks={}", bytes_list(tokens.iter().map(|t| t.as_slice())), versions, server, port, ks),
         tokens,
     )
 }
@@ -1719,8 +1791,11 @@ fn gen_pref_list(rng: &mut Rng, supported: &[u16], unknown: &[u16]) -> Vec<u16> 
 
 /// a pool / key-exchange request as a record list (no end of message)
 fn gen_conn_request(rng: &mut Rng, tokens: &[Vec<u8>], kind: u64, keep_alive: Option<bool>) -> Vec<Vec<u8>> {
-    let auth: Vec<u8> = if !tokens.is_empty() && rng.chance(3, 5) {
+    let auth: Vec<u8> = if !tokens.is_empty() && rng.chance(2, 5) {
         rng.pick(tokens).clone()
+    } else if !tokens.is_empty() && rng.chance(1, 2) {
+        let t = rng.pick(tokens).clone();
+        near_miss(rng, &t)
     } else {
         rng.pick(&AUTH_POOL[..]).as_bytes().to_vec()
     };
@@ -1850,6 +1925,47 @@ fn gen_conn_case(rng: &mut Rng, idx: u64, _run: &Run) -> Vec<String> {
     let mut ops = vec![];
     // corpus: the situations the property names, first
     let scripted = idx < 12;
+    // always-run witnesses for (a) key sets whose wire ids wrap around u32 and (b) token near misses
+    if (12..18).contains(&idx) {
+        let ks = ["4294967295:1:2:0", "4294967294:2:3:0", "4294967295:0:1:1", "4294967293:3:4:2", "2147483648:1:2:0", "1:0:1:0"][(idx - 12) as usize];
+        let mut m = vec![rec(0x8001, &u16s(&[0x8001, 0])), rec(0x8004, &u16s(&[17, 15]))].concat();
+        m.extend(rec(0x8000, &[]));
+        return vec![
+            format!("cfg tokens=[6869] versions=v4,v5 server=none port=none ks={}", ks),
+            format!("conn permit=1 fin=0 req={}", hex(&m)),
+            "finish".to_string(),
+        ];
+    }
+    if (18..30).contains(&idx) {
+        // (configured tokens, token carried by the request)
+        let cases: [(&[&str], &str); 12] = [
+            (&["hi "], "hi"),
+            (&["hi "], "hi "),
+            (&[" hi"], "hi"),
+            (&["hi\n"], "hi"),
+            (&["\thi"], "\thi"),
+            (&[""], ""),
+            (&[" "], ""),
+            (&["hi", "Hi"], "HI"),
+            (&["hihi"], "hi"),
+            (&["h"], "hi"),
+            (&["pool-secret "], "pool-secret"),
+            (&["hi"], "hi "),
+        ];
+        let (cfg_tokens, auth) = cases[(idx - 18) as usize];
+        let pool_req = if idx % 2 == 0 {
+            vec![rec(14, auth.as_bytes()), rec(0x800c, &[7u8; 64]), rec(0x8001, &u16s(&[0])), rec(0x8004, &u16s(&[15])), rec(8, &[])]
+        } else {
+            vec![rec(14, auth.as_bytes()), rec(0x8009, &[]), rec(0x800a, &[]), rec(8, &[])]
+        };
+        let mut m = pool_req.concat();
+        m.extend(rec(0x8000, &[]));
+        return vec![
+            format!("cfg tokens={} versions=v4,v5 server=none port=none ks=test", bytes_list(cfg_tokens.iter().map(|t| t.as_bytes()))),
+            format!("conn permit=1 fin=0 req={}", hex(&m)),
+            "finish".to_string(),
+        ];
+    }
     let (cfg_line, tokens) = if scripted {
         let versions = match idx {
             7 | 10 => "v5,v4",
@@ -1857,7 +1973,14 @@ fn gen_conn_case(rng: &mut Rng, idx: u64, _run: &Run) -> Vec<String> {
             11 => "v5",
             _ => "v4,v5",
         };
-        (format!("cfg tokens=[6869] versions={} server=none port=none", versions), vec![b"hi".to_vec()])
+        // the scripted key exchanges also run on restored key sets with ids around the u32 wrap
+        let ks = match idx {
+            5 => "4294967295:1:2:0",
+            6 => "4294967294:2:3:1",
+            8 => "0:0:1:3",
+            _ => "test",
+        };
+        (format!("cfg tokens=[6869] versions={} server=none port=none ks={}", versions, ks), vec![b"hi".to_vec()])
     } else {
         {
             let want = rng.chance(3, 4);
